@@ -1,7 +1,8 @@
 (* C12 property theorems (statements only).  Model: C03/Model.v (matcher, MapAdapter.match,
    make_redirect_url, quote, urlunsplit) + C12/Model.v (url_root, on_host). *)
 From Coq Require Import ZArith.
-From Wz Require Import lib.Bytes lib.Utf8 C03.Gen C03.Trie C03.Model C03.Proofs C04.Model C12.Model C12.Proofs.
+From Wz Require Import lib.Bytes lib.Utf8 C03.Gen C03.Trie C03.Model C03.Proofs C04.Model C04.MapProofs C04.SubdomainProofs
+  C12.Model C12.Proofs C12.Converge C12.ConvergeProofs C12.CanonProofs.
 Open Scope N_scope.
 
 (* every redirect MapAdapter.match issues for a missing trailing slash or for merged slashes is
@@ -115,10 +116,9 @@ Print Assumptions C12_redirect_addresses_target.
    then returns that match, unless redirect_defaults makes the URL builder canonicalise it (alias / defaults).
    rule_wf2: the C03 grammar - path converter only as trailing segment, no empty literal segment, no variable
    segment that matches the empty text.  No assumption on merge_slashes settings.
-   Still only checked by the harness (judge_c12 follows every redirect): that r' is the rule that caused the
-   redirect with the same arguments - it holds for the plain merged-slash redirect by determinism (the follow-up
-   repeats the very search that found the rule), for the slash redirects r' is a priority-minimal rule serving
-   the target (C03_priority), among whose serving candidates the causing rule is (C12_converges_partial). *)
+   That r' is the rule that caused the redirect, with the same arguments, is C12_converges below (maps without a
+   trailing path converter); here r' is a priority-minimal rule serving the target (C03_priority), among whose
+   serving candidates the causing rule is (C12_converges_partial). *)
 Theorem C12_converges_one_hop : forall m a p me u,
   (forall r, In r (m_rules m) -> rule_wf2 r = true) ->
   router_match m a p me = RedirectTo u ->
@@ -139,3 +139,138 @@ Example C12_converges_one_hop_example :
   /\ exists u, router_match (mk_map [ex_r3]) ex_adapter_app [47; 47; 101; 118; 105; 108; 46; 99; 111; 109; 47; 51] GET = RedirectTo u.
 Proof. exact ex_one_hop_hyps. Qed.
 Print Assumptions C12_converges_one_hop_example.
+
+(* C12_converges (no longer partial), for maps whose rules have no trailing <path:name> (rule_wf3 = rule_wf2
+   + no trailing path converter + a host part that does not match the empty text): the request for the
+   target p' of a slash / merged-slash redirect is answered by the rule r that caused the redirect, with the
+   same arguments v:
+     caused_redirect m domain path r v p'  :=
+         p' = path/        and r, a strict rule ending in a slash, admits path without its slash, its own parts
+                           capturing the texts that convert to v                       (slash_args)
+       | p' = merged/      the same for the merged path (merge_slashes)
+       | p' = merged       and r admits the merged path directly with v.
+   The proof is an order isomorphism between the two searches (C12/Converge.v): in a tree whose variable
+   parts look at one segment each, every candidate of the search for path ++ [""] is a candidate of the search
+   for path, of the same kind or KSlash turned KHere, in the same order; so the first hit of the first search
+   (the rule that raised SlashRequired) is the first hit of the second.
+   What remains outside: rules with a trailing path converter.  There a path part consumes several segments and
+   "/a/b" vs "/a/b/" can be split differently between a non-greedy path part and what follows; for these
+   C12_converges_one_hop (a direct match of a priority-minimal serving rule) is what is proved, and the harness
+   (judge_c12) checks the identity of rule and arguments on every followed redirect. *)
+Theorem C12_converges : forall m a p me u,
+  (forall r, In r (m_rules m) -> rule_wf3 r = true) ->
+  router_match m a p me = RedirectTo u ->
+  (exists p' r v, u = make_redirect_url m a (quote safe_redirect p') None
+     /\ In r (m_rules m) /\ rmethod_ok r (upper me) = true /\ r_websocket r = a_websocket a
+     /\ caused_redirect m (domain_part m a) (path_part p) r v p'
+     /\ matcher_run m (trie_of m) (domain_part m a) p' (upper me) (a_websocket a) = MOk rule (list (str * value)) r v
+     /\ forall p2, path_part p2 = p' ->
+          router_match m a p2 me = Match r (dict_update v (r_defaults r))
+          \/ (m_redirect_defaults m = true
+              /\ ((exists u', router_match m a p2 me = RedirectTo u') \/ (exists e, router_match m a p2 me = Raised e))))
+  \/ (exists r v, In r (m_rules m) /\ admits m r (request_parts m a p) = ADirect _ v /\ m_redirect_defaults m = true
+        /\ (r_alias r = true /\ alias_redirect_url m a (upper me) r (dict_update v (r_defaults r)) = BOk u
+            \/ get_default_redirect m a (upper me) r (dict_update v (r_defaults r)) = BOk (Some u))).
+Proof. exact converges. Qed.
+Print Assumptions C12_converges.
+
+Example C12_converges_hyps_example :
+  (forall r, In r (m_rules (mk_map [ex_r3])) -> rule_wf3 r = true)
+  /\ exists u, router_match (mk_map [ex_r3]) ex_adapter_app [47; 47; 101; 118; 105; 108; 46; 99; 111; 109; 47; 51] GET = RedirectTo u.
+Proof. exact ex_converges_same_hyps. Qed.
+Print Assumptions C12_converges_hyps_example.
+
+(* The second disjunct of C12_converges: the defaults canonicalisation converges in one hop.
+   get_default_redirect answered the match of rule0 (values vals) with the URL u.  Then u was built by a rule r
+   of the same endpoint that provides defaults for rule0, and the request for u - same method, an adapter a2
+   bound to the host that u names - is answered by r itself, with the values r captures from the URL and its
+   defaults, and is not redirected again.  Hypotheses (what the generator of tools/c12.py enforces for every
+   defaults / alias group):
+     - r builds a well-formed URL from the values (the C04 derivation dom_built / segs_built / tail_built),
+     - vals carries every argument of rule0 (the values of a match do) and no float,
+     - r is not shadowed: no other rule of the map admits the URL r built,
+     - no other rule of the endpoint has the trace of rule0 (Rule.__eq__),
+     - r is not an alias and serves the protocol of the adapter.
+   Without "not shadowed" / "distinct traces" the router can answer the follow-up with another redirect, and a
+   pair of rules that shadow each other can send a client back and forth; such maps are outside the statement. *)
+Theorem C12_defaults_converge : forall m a a2 me rule0 vals u,
+  get_default_redirect m a (upper me) rule0 vals = BOk (Some u) ->
+  exists r dom path,
+    In r (m_rules m) /\ provides_defaults_for r rule0 = true
+    /\ build_rule r (dict_update vals (r_defaults r)) = BOk (dom, path)
+    /\ u = make_redirect_url m a path (Some dom)
+    /\ forall dt dcaps dvs ts caps vs tts restP tcaps tvs k rest,
+        dom_built (r_defaults r) (dict_update vals (r_defaults r)) (r_dom r) dt dcaps dvs -> r_segs r = SLit k :: rest ->
+        segs_built (r_defaults r) (dict_update vals (r_defaults r)) (r_segs r) ts caps vs ->
+        tail_built (r_defaults r) (dict_update vals (r_defaults r)) (is_branch r) (r_tail r) tts restP tcaps tvs ->
+        (forall k, In k (rule_arguments rule0) -> dict_has k vals = true) ->
+        (forall k x, dict_get k vals = Some x -> reval x = x) ->
+        (forall r', In r' (m_rules m) -> admits m r' (dom :: [] :: ts ++ restP) <> ANo (list (str * value)) -> r' = r) ->
+        (forall r', In r' (m_rules m) -> r_endpoint r' = r_endpoint rule0 ->
+                    trace_eqb (rule_trace r') (rule_trace rule0) = true -> r_idx r' = r_idx rule0) ->
+        r_alias r = false -> r_websocket r = a_websocket a2 -> domain_part m a2 = dom ->
+        router_match m a2 (unquote path) me = Match r (dict_update (dvs ++ vs ++ tvs) (r_defaults r)).
+Proof. exact defaults_converge. Qed.
+Print Assumptions C12_defaults_converge.
+
+(* Map([Rule('/g/<int:x>', endpoint=e), Rule('/g', defaults={'x': 1}, endpoint=e), Rule('/old/<int:x>', endpoint=e, alias=True)]):
+   the match of '/g/1' is redirected to http://example.com/g, and (by the theorem, all hypotheses discharged)
+   '/g' is answered by the defaults rule with x = 1 *)
+Example C12_defaults_converge_example :
+  get_default_redirect cx_map ex_adapter (upper GET) cx_var [(LX, VInt 1)] = BOk (Some (HTTP ++ [COLON; SLASH; SLASH] ++ a_server ex_adapter ++ [47; 103]))
+  /\ router_match cx_map ex_adapter [47; 103] GET = Match cx_def [(LX, VInt 1)].
+Proof. exact cx_defaults_converge. Qed.
+Print Assumptions C12_defaults_converge_example.
+
+(* ... and the alias canonicalisation (host_matching off): the URL is built by the first rule r of the endpoint,
+   in build order, that is suitable for the values; the request for it is answered by r and not redirected again,
+   when r is not itself an alias (the endpoint has a canonical rule - see observation 1 below for what happens
+   otherwise), the alias rule carries the arguments of r, and r is not shadowed. *)
+Theorem C12_alias_converge : forall m a a2 me rule0 vals u,
+  m_host_matching m = false ->
+  alias_redirect_url m a (upper me) rule0 vals = BOk u ->
+  exists r dom path u0,
+    In r (m_rules m) /\ r_endpoint r = r_endpoint rule0
+    /\ build_rule r vals = BOk (dom, path)
+    /\ adapter_build m a (r_endpoint rule0) vals (Some (upper me)) true = BOk (Some u0) /\ u = u0 ++ query_suffix a
+    /\ partial_build (rules_for m (r_endpoint rule0)) vals (Some (upper me)) = BOk (Some (r, dom, path))
+    /\ forall dt dcaps dvs ts caps vs tts restP tcaps tvs k rest,
+        dom_built (r_defaults r) vals (r_dom r) dt dcaps dvs -> r_segs r = SLit k :: rest ->
+        segs_built (r_defaults r) vals (r_segs r) ts caps vs ->
+        tail_built (r_defaults r) vals (is_branch r) (r_tail r) tts restP tcaps tvs ->
+        (forall k, In k (rule_arguments r) -> dict_has k vals = true) ->
+        (forall k x, dict_get k vals = Some x -> reval x = x) ->
+        (forall r', In r' (m_rules m) -> admits m r' (dom :: [] :: ts ++ restP) <> ANo (list (str * value)) -> r' = r) ->
+        r_alias r = false -> r_websocket r = a_websocket a2 -> domain_part m a2 = dom ->
+        router_match m a2 (unquote path) me = Match r (dict_update (dvs ++ vs ++ tvs) (r_defaults r)).
+Proof. exact alias_converge. Qed.
+Print Assumptions C12_alias_converge.
+
+(* '/old/1' of the same map is redirected to http://example.com/g *)
+Example C12_alias_converge_example :
+  router_match cx_map ex_adapter [47; 111; 108; 100; 47; 49] GET
+  = RedirectTo (HTTP ++ [COLON; SLASH; SLASH] ++ a_server ex_adapter ++ [47; 103])
+  /\ alias_redirect_url cx_map ex_adapter (upper GET) cx_old [(LX, VInt 1)]
+     = BOk (HTTP ++ [COLON; SLASH; SLASH] ++ a_server ex_adapter ++ [47; 103]).
+Proof. exact cx_alias_converge. Qed.
+Print Assumptions C12_alias_converge_example.
+
+(* Two behaviours observed while building this check, and why they are not findings of C12:
+
+   1. An alias rule whose endpoint has no other (canonical) rule redirects to itself:
+        Map([Rule('/old/<int:p>', endpoint='e', alias=True)]), GET /old/1 -> 308 to http://example.com/old/1, for ever.
+      Rule's documentation defines alias=True as "an alias for another rule with the same endpoint and arguments": a map
+      without that other rule violates the documented precondition of the option, so it is outside the maps C12 quantifies
+      over (the generator always emits the canonical rule).  make_alias_redirect_url carries
+      `assert url != path, "detected invalid alias setting..."`, meant to reject exactly this configuration, but it compares
+      the built URL with the string domain|path and can never fire; worth reporting upstream, not a router-redirect defect.
+      In the model the self-redirect is the RedirectTo outcome of alias_redirect_url; C12_on_host covers where it points.
+
+   2. Defaults canonicalisation can raise instead of redirecting when the rules of one endpoint use different converters for
+      the same argument:  Map([Rule('/y/<any(a,b):p>', defaults={'q': 1}, endpoint='e'), Rule('/x/<p>/<int:q>', endpoint='e')]),
+      GET /x/zz/1 -> ValueError("'zz' is not one of 'a', 'b'") escapes MapAdapter.match (get_default_redirect builds the
+      defaults rule with the matched values; AnyConverter.to_url validates and raises ValueError, which Rule.build does not
+      catch).  No redirect is issued, so none of C12's clauses (where a redirect points, that following it converges) is
+      about this request, and C03's grammar has no defaults; the model represents the outcome as Raised false
+      (alias_redirect_url / get_default_redirect return BValueError) and C03_served_never_refused lists it as the third
+      possibility.  The harness keeps the converters of one argument equal across the rules of an endpoint. *)
